@@ -12,6 +12,7 @@ EXPLANATION = (
 TRUSTED = c05.TRUSTED
 ASSUMPTIONS = ["boolean leaves", "acyclic models (C10)", "evaluation kernel is the arithmetic truth function (C03)"]
 NOT_DECIDED = []
+PROTECTED = ["puan.logic.plog.AtLeast.negate"]
 MIN_OBLIGATIONS = 15
 
 
